@@ -11,6 +11,7 @@ package ledger
 
 import (
 	"bytes"
+	"encoding/binary"
 	"fmt"
 	"runtime/debug"
 	"strings"
@@ -35,6 +36,66 @@ type c19World struct {
 	rekeyTo  basics.Address
 	never    basics.Address // addrs[9]: never opts in to anything
 	frozen   basics.Address // addrs[3]: opted in to the asset, holding frozen
+	// committed state that no case may change (cases never commit): box contents and rendered accounts
+	baseBoxes map[string][]byte
+	baseAccts map[basics.Address]string
+}
+
+func c19BoxKey(app basics.AppIndex, name string) string {
+	return "bx:" + string(evkItob(uint64(app))) + name
+}
+
+func (w *c19World) snapshotAddrs() []basics.Address {
+	return append(append([]basics.Address{}, w.addrs...), w.app1.Address(), w.app2.Address(), w.poorMin, w.poorOver)
+}
+
+func (w *c19World) snapshot() error {
+	w.baseBoxes, w.baseAccts = map[string][]byte{}, map[basics.Address]string{}
+	rnd := w.l.Latest()
+	for _, app := range []basics.AppIndex{w.app1, w.app2} {
+		for _, name := range []string{"b0", "b1", "b2"} {
+			k := c19BoxKey(app, name)
+			v, err := w.l.LookupKv(rnd, k)
+			if err != nil {
+				return err
+			}
+			if v != nil {
+				w.baseBoxes[k] = append([]byte{}, v...)
+			}
+		}
+	}
+	for _, a := range w.snapshotAddrs() {
+		ad, _, _, err := w.l.LookupLatest(a)
+		if err != nil {
+			return err
+		}
+		w.baseAccts[a] = fmt.Sprintf("%+v", ad)
+	}
+	return nil
+}
+
+// checkBase: nothing was committed, so the ledger must still answer exactly what it answered after set-up.
+func (w *c19World) checkBase() error {
+	rnd := w.l.Latest()
+	for k, want := range w.baseBoxes {
+		got, err := w.l.LookupKv(rnd, k)
+		if err != nil {
+			return err
+		}
+		if !bytes.Equal(got, want) {
+			return fmt.Errorf("committed box %q of app %d changed although no block was committed: %q -> %q", k[11:], binary.BigEndian.Uint64([]byte(k[3:11])), want, got)
+		}
+	}
+	for _, a := range w.snapshotAddrs() {
+		ad, _, _, err := w.l.LookupLatest(a)
+		if err != nil {
+			return err
+		}
+		if got := fmt.Sprintf("%+v", ad); got != w.baseAccts[a] {
+			return fmt.Errorf("committed account %s changed although no block was committed:\nwas %s\nnow %s", a, evkTrunc(w.baseAccts[a], 1500), evkTrunc(got, 1500))
+		}
+	}
+	return nil
 }
 
 func c19NewWorld(t *testing.T, cv protocol.ConsensusVersion) (*c19World, error) {
@@ -72,15 +133,24 @@ func c19NewWorld(t *testing.T, cv protocol.ConsensusVersion) (*c19World, error) 
 	if _, err := w.block(g...); err != nil {
 		return nil, fmt.Errorf("c19 world block A: %w", err)
 	}
-	bc := w.call(a[0], w.app1, "bcreate", "b0", 8)
-	bc.Boxes = evkBox("b0")
+	mkbox := func(app basics.AppIndex, name string, ch string, n int) []*txntest.Txn {
+		tx := w.call(a[0], app, "bput", name, strings.Repeat(ch, n))
+		tx.Boxes = evkBox(name)
+		return []*txntest.Txn{tx}
+	}
 	if _, err := w.block(
 		[]*txntest.Txn{{Type: "afrz", Sender: a[0], FreezeAccount: w.frozen, FreezeAsset: w.asset, AssetFrozen: true}},
-		[]*txntest.Txn{bc},
+		mkbox(w.app1, "b0", "A", 16), mkbox(w.app1, "b1", "B", 24), mkbox(w.app2, "b0", "C", 16), mkbox(w.app2, "b2", "D", 20),
 		[]*txntest.Txn{w.call(a[0], w.app1, "gput", "k0", "init")},
 		[]*txntest.Txn{w.call(a[1], w.app1, "lput", "l0", "init")},
 	); err != nil {
 		return nil, fmt.Errorf("c19 world block B: %w", err)
+	}
+	if err := w.snapshot(); err != nil {
+		return nil, fmt.Errorf("c19 world snapshot: %w", err)
+	}
+	if len(w.baseBoxes) != 4 {
+		return nil, fmt.Errorf("c19 world: %d boxes", len(w.baseBoxes))
 	}
 	return w, nil
 }
@@ -147,7 +217,7 @@ func (g *c19Gen) val() string {
 // work: a member that does visible work and is expected (not required) to succeed.
 func (g *c19Gen) work() c19Member {
 	w, a := g.w, g.w.addrs
-	kind := rapid.SampledFrom([]string{"gput", "box", "ipay", "lput", "pay", "axfer", "icreate-asset", "icreate-app", "nested-gput",
+	kind := rapid.SampledFrom([]string{"bshrinkgrow", "gput", "box", "bresize", "bread", "bsplice", "breplace", "ipay", "lput", "pay", "axfer", "icreate-asset", "icreate-app", "nested-gput",
 		"bdel", "gint", "acfg", "asset-optin", "app-optin", "rekeyed-ok", "close", "clear-fail",
 		"nested-pay", "gdel", "lease-pay", "keyreg", "pay", "box", "gput"}).Draw(g.rt, "work")
 	switch kind {
@@ -177,6 +247,30 @@ func (g *c19Gen) work() c19Member {
 		tx := w.call(g.rich(), g.app(), "bput", name, g.val())
 		tx.Boxes = evkBox(name)
 		return c19Member{tx: tx, desc: "bput"}
+	case "bshrinkgrow", "bresize", "bread", "bsplice", "breplace":
+		// in-place style box edits on boxes that exist in the committed ledger (app1: b0,b1; app2: b0,b2) or were
+		// written by an earlier group of the block; every one of them is a no-op when the box does not exist
+		name := fmt.Sprintf("b%d", rapid.IntRange(0, 2).Draw(g.rt, "bn"))
+		var tx *txntest.Txn
+		switch kind {
+		case "bshrinkgrow":
+			small := rapid.IntRange(0, 12).Draw(g.rt, "small")
+			tx = w.call(g.rich(), g.app(), kind, name, small, small+rapid.IntRange(1, 16).Draw(g.rt, "regrow"))
+		case "bresize":
+			tx = w.call(g.rich(), g.app(), kind, name, rapid.IntRange(0, 32).Draw(g.rt, "newSize"))
+		case "bread":
+			tx = w.call(g.rich(), g.app(), kind, name)
+		case "bsplice":
+			tx = w.call(g.rich(), g.app(), kind, name, rapid.IntRange(0, 4).Draw(g.rt, "spStart"), rapid.IntRange(0, 4).Draw(g.rt, "spLen"), evkTrunc(g.val(), rapid.IntRange(0, 6).Draw(g.rt, "spRepl")))
+		default:
+			v := g.val()
+			if len(v) > 8 {
+				v = v[:8]
+			}
+			tx = w.call(g.rich(), g.app(), kind, name, v)
+		}
+		tx.Boxes = evkBox(name)
+		return c19Member{tx: tx, desc: kind}
 	case "bdel":
 		name := fmt.Sprintf("b%d", rapid.IntRange(0, 2).Draw(g.rt, "bn"))
 		tx := w.call(g.rich(), g.app(), "bdel", name)
@@ -517,6 +611,11 @@ func TestVerif_C19_GroupAtomicity(t *testing.T) {
 			}
 		}
 
+		// the ledger itself was never committed to: its committed boxes / accounts must read back unchanged
+		if err := w.checkBase(); err != nil {
+			rt.Fatalf("%v\nverdicts=%v", err, c19Verdicts(full))
+		}
+
 		// labels + evidence
 		nt := false
 		seenFail, acceptedAfterFail := false, false
@@ -547,6 +646,11 @@ func TestVerif_C19_GroupAtomicity(t *testing.T) {
 			if p.applied >= 1 {
 				nt = true
 				vk.Label("rejected after >=1 applied member")
+				for j, d := range g.descs {
+					if j < p.applied && (d == "bshrinkgrow" || d == "bresize" || d == "bsplice" || d == "breplace" || d == "bput" || d == "bdel") {
+						vk.Label("rejected after an applied box edit: " + d)
+					}
+				}
 				if p.failed < 0 {
 					vk.Label("rejected by group-level check after all members applied")
 				}
